@@ -125,7 +125,11 @@ class C07(Prop):
             "different sparsity pattern), half of them with rows and columns of the twin blocks "
             "scaled by exact powers of two (2^-30..2^30 each, i.e. +-60 binary orders inside the "
             "secondary block; zero state, values recorded in units of 2^-64, reduced system "
-            "solved exactly, componentwise comparison with the exact rational solution); 30% "
+            "solved exactly, componentwise comparison with the exact rational solution); every "
+            "admissible split is expanded three times (solution, damped trial, solution again) "
+            "with a check that neither the argument nor the stored Schur data changed; 40% of "
+            "the unscaled cases hand an explicit state different from the stored values to "
+            "every assembly (operators and reference system evaluated at that state); 30% "
             "directed insertion orders: a wholly secondary equation set BEFORE a primary "
             "equation restricted to a subset of its grids; non-trivial = at least two admissible splits with different "
             "secondary blocks on one system; distinct by (case, output)")
@@ -340,6 +344,10 @@ class C07(Prop):
                     "operators": operators, "eqs": eqs, "splits": splits}
             if scaled:
                 case["unit"] = 64
+            elif rng.random() < 0.4:
+                # explicit state for every assembly, different from the stored values; the
+                # operators (hence the reference full system) are evaluated at that state
+                case["state2"] = [rng.randint(-2, 2) for _ in state]
             yield case
 
     # ------------------------------------------------------------------ implementation
@@ -348,9 +356,13 @@ class C07(Prop):
         mdg, sdl, ifl, es, created, mds = _C06._build(c6)
         nd = int(es.num_dofs())
         U = int(case.get("unit", 0))      # all recorded values are in units of 2^-U
+        s2 = case.get("state2")
+
+        def st():
+            return None if s2 is None else np.array(s2, dtype=float)
         evals = []
         for spec in case["operators"]:
-            ad = es.evaluate(_C06._expr(es, created, spec), derivative=True)
+            ad = es.evaluate(_C06._expr(es, created, spec), derivative=True, state=st())
             assert ad.jac.shape == (spec["rows"], nd)
             evals.append([_rows_u(ad.jac, U), _vec_u(ad.val, U)])
         registered = {}
@@ -360,7 +372,7 @@ class C07(Prop):
             es.set_equation(e, [(sdl if g[0] == "sd" else ifl)[g[1]] for g in grids],
                             dict(zip(("cells", "faces", "nodes"), info)))
             registered[name] = e
-        A, b = es.assemble()
+        A, b = es.assemble(state=st())
         Ad = A.toarray()
         full = None
         if Ad.shape[0] == Ad.shape[1] and Ad.shape[0] > 0 and not U:
@@ -406,7 +418,7 @@ class C07(Prop):
                 return sps.csr_matrix(M.shape)
             try:
                 S0, r0 = es.assemble_schur_complement_system(eqarg(pe), vrefs(pv),
-                                                             inverter=zero_inverter)
+                                                             inverter=zero_inverter, state=st())
                 _inv0, b_s, A_sp, pro_p, pro_s = es._Schur_complement
                 cp = [int(i) for i in sps.csc_matrix(pro_p).indices]
                 cs = [int(i) for i in sps.csc_matrix(pro_s).indices]
@@ -423,7 +435,7 @@ class C07(Prop):
                 continue
             # the real thing: default inverter, reduced solve, expansion
             try:
-                S, rS = es.assemble_schur_complement_system(eqarg(pe), vrefs(pv))
+                S, rS = es.assemble_schur_complement_system(eqarg(pe), vrefs(pv), state=st())
                 inv = es._Schur_complement[0]
                 rec["inv"] = [[float(x) for x in row] for row in sps.csr_matrix(inv).toarray()]
                 if U:
@@ -435,8 +447,23 @@ class C07(Prop):
                     xp = np.array([float(x) for x in xe])
                 else:
                     xp = np.linalg.solve(S.toarray(), rS)
+                stored = es._Schur_complement
+                snap = [np.array(sps.csr_matrix(m).toarray() if sps.issparse(m) else m,
+                                 dtype=float).copy() for m in stored]
+                xp0 = xp.copy()
                 X = es.expand_schur_complement_solution(xp)
                 rec["X"] = [float(x) for x in X]
+                # further expansions of the SAME assembled system: a damped trial, then the
+                # full solution again; nothing handed in or stored may have changed
+                X[:] = 977.0
+                es.expand_schur_complement_solution(0.5 * xp)
+                X2 = es.expand_schur_complement_solution(xp)
+                rec["X2"] = [float(x) for x in X2]
+                after = [np.array(sps.csr_matrix(m).toarray() if sps.issparse(m) else m,
+                                  dtype=float) for m in es._Schur_complement]
+                rec["changed"] = ([i for i, (u, v) in enumerate(zip(snap, after))
+                                   if u.shape != v.shape or not np.array_equal(u, v)]
+                                  + ([9] if not np.array_equal(xp, xp0) else []))
             except (KeyError, ValueError, AssertionError, IndexError,
                     np.linalg.LinAlgError) as e:
                 rec["err2"] = type(e).__name__ + ": " + str(e)[:120]
@@ -498,13 +525,18 @@ class C07(Prop):
                 return where + f"assembly of an admissible split raised {rec['err']}"
             if "err2" in rec:
                 return where + f"default inverter / reduced solve raised {rec['err2']}"
-            X = rec["X"]
-            if len(X) != n:
-                return where + "expanded solution has the wrong size"
-            for i in range(n):
-                if abs(Fraction(X[i]) - x[i]) > Fraction(1, 10 ** 9) * abs(x[i]):
-                    return where + ("expanded Schur solution differs from the full solve by "
-                                    f"component {i}: {X[i]!r} vs exact {float(x[i])!r}")
+            if rec.get("changed"):
+                return where + ("expand_schur_complement_solution modified its argument or the "
+                                f"stored Schur data (items {rec['changed']})")
+            for key in ("X", "X2"):
+                X = rec[key]
+                if len(X) != n:
+                    return where + "expanded solution has the wrong size"
+                for i in range(n):
+                    if abs(Fraction(X[i]) - x[i]) > Fraction(1, 10 ** 9) * abs(x[i]):
+                        return where + (("" if key == "X" else "repeated expansion: ")
+                                        + "expanded Schur solution differs from the full solve "
+                                        f"by component {i}: {X[i]!r} vs exact {float(x[i])!r}")
         return None
 
     def oracle(self, case, res):
@@ -528,10 +560,15 @@ class C07(Prop):
                 return where + f"assembly of an admissible split raised {rec['err']}"
             if "err2" in rec:
                 return where + f"default inverter / reduced solve raised {rec['err2']}"
-            X = np.array(rec["X"])
-            if X.shape != x.shape or not np.all(np.abs(X - x) <= TOL * (1 + np.abs(x))):
-                return where + ("expanded Schur solution differs from the full solve by "
-                                f"{float(np.max(np.abs(X - x))):.3g}")
+            if rec.get("changed"):
+                return where + ("expand_schur_complement_solution modified its argument or the "
+                                f"stored Schur data (items {rec['changed']})")
+            for key in ("X", "X2"):
+                X = np.array(rec[key])
+                if X.shape != x.shape or not np.all(np.abs(X - x) <= TOL * (1 + np.abs(x))):
+                    return where + (("" if key == "X" else "repeated expansion: ")
+                                    + "expanded Schur solution differs from the full solve by "
+                                    f"{float(np.max(np.abs(X - x))):.3g}")
             if not np.all(np.abs(A @ X - b) <= 1e-7 * (1 + np.abs(b))):
                 return where + "expanded solution does not solve the full system"
         return None
@@ -573,6 +610,8 @@ class C07(Prop):
         return len(set(blocks)) >= 2
 
     def finding_key(self, case, res, why):
+        if "repeated expansion" in why or "modified its argument" in why:
+            return "expand_schur_complement_solution: repeated expansion of one assembled system"
         if "default inverter" in why or "differs from the full solve" in why:
             first_ok = res["outs"] and "X" in res["outs"][0]
             if first_ok:
